@@ -465,6 +465,9 @@ class CSys:
     ("exit", h)                  clean __exit__
     ("exitx", h)                 __exit__ with an exception raised by the body
     ("set", h, key, val)         c[key] = val
+    ("flush", h)                 explicit Collection.flush() inside a writing session that has puts queued
+    ("set", h, key, val, "blind") the same, and NOTHING is read afterwards (every comparison reads, and reading writes
+                                 out what is queued): the queued state is carried into the next operation
     ("set", h, key, val, acc)    the same, and accessor `acc` is the FIRST thing called afterwards (the full
                                  comparison that follows every step starts with keys() and c[k], which may
                                  themselves bring the handle up to date)
@@ -509,6 +512,18 @@ class CSys:
         if op[0] == "enter":
             return f"enter[{op[2]}]"
         return op[0]
+
+    def file_bytes_flushed(self, st):
+        """the file as the operating system sees it once python-level stream buffers of open handles are written
+        out (an un-flushed BufferedRandom is not a change *by the failing operation* when it lands later)"""
+        for c in st.handles.values():
+            uf = getattr(c._backend, "_ukvfile", None)
+            try:
+                if uf is not None and not uf.closed and uf._stream.writable():
+                    uf._stream.flush()
+            except Exception:
+                pass
+        return self.file_bytes()
 
     def by_bytes(self):
         try:
@@ -594,6 +609,8 @@ class CSys:
             else:
                 ops.append(("exit", n))
                 ops.append(("exitx", n))
+                if s == "w" and len(getattr(st.handles[n]._backend, "_write_queue", ())) > 0:
+                    ops.append(("flush", n))  # explicit Collection.flush() with puts still queued
                 if s == "w":
                     v0 = next(iter(self.vals))
                     for kn in self.keys:
@@ -605,6 +622,9 @@ class CSys:
                             if self.first_acc == "all" or (vn == v0 and self.BUFS[st.cfg[n][0]] > 0):
                                 for acc in ACCESSORS:
                                     ops.append(("set", n, kn, vn, acc))
+                            # the put is NOT followed by any read: what it queued stays queued for the next operation
+                            if self.BUFS[st.cfg[n][0]] > 0 and (vn == v0 or st.cfg[n][0] == "small"):
+                                ops.append(("set", n, kn, vn, "blind"))
                 elif st.cfg[n][1]:
                     ops.append(("set", n, "a", "x"))  # write through a read-only handle: must fail
         if self.bystander and st.handles:
@@ -725,6 +745,7 @@ class CSys:
         if kind == "set" and len(op) == 5 or kind == "enter" and len(op) == 4:
             acc = op[-1]
         if kind[0] == "b":
+            pre_bytes = self.file_bytes_flushed(st)
             try:
                 self._by_step(st, op)
             except Exception as e:
@@ -734,7 +755,7 @@ class CSys:
                 return False
             st.hist.append(list(op))
             st.pending = True
-            if self.file_bytes() != pre_bytes:
+            if self.file_bytes_flushed(st) != pre_bytes:
                 self.viol(st, op, "changed-by-second-library", "an operation on another library changed this library's file")
                 return False
             return self._check_views(st, op) and self._check_by(st, op)
@@ -772,6 +793,7 @@ class CSys:
             ro = st.cfg[name][1]
             if m == "w" and ro:
                 pre_view = self.view(st)
+                pre_bytes = self.file_bytes_flushed(st)
                 try:
                     cm = c.writing(timeout=0.2)
                     cm.__enter__()
@@ -819,7 +841,10 @@ class CSys:
             c = st.handles[name]
             s = st.sess.get(name)
             must_fail = st.cfg[name][1] or key in st.model or len(key.encode()) > 255
-            pre_view = self.view(st) if must_fail else None
+            dirty = len(getattr(c._backend, "_write_queue", ())) > 0  # looking at the handle would flush what is queued
+            pre_view = self.view(st) if must_fail and not dirty else None
+            if must_fail:
+                pre_bytes = self.file_bytes_flushed(st)
             try:
                 c[key] = val
             except Exception as e:
@@ -835,10 +860,18 @@ class CSys:
                     ok = False
                 else:
                     st.model[key] = val
+        elif kind == "flush":
+            try:
+                st.handles[op[1]].flush()
+            except Exception as e:
+                self.viol(st, op, "flush-raised", f"Collection.flush() inside a writing session raised {exc_name(e)}: {e}")
+                ok = False
         else:  # pragma: no cover
             raise HarnessError(f"unknown op {op}")
         st.hist.append(list(op))
         st.pending = True
+        if acc == "blind":
+            return ok
         if ok and acc and st.sess.get(op[1]):
             ok = self._first(st, op, op[1], acc, CKEYS[op[2]] if kind == "set" else None)
         if ok:
@@ -849,10 +882,10 @@ class CSys:
 
     def _unchanged(self, st, op, pre_bytes, pre_view):
         ok = True
-        if self.file_bytes() != pre_bytes:
+        if self.file_bytes_flushed(st) != pre_bytes:
             self.viol(st, op, "failed-op-changed-file", "an operation that failed changed the file bytes")
             ok = False
-        if self.view(st) != pre_view:
+        if pre_view is not None and self.view(st) != pre_view:
             self.viol(st, op, "failed-op-changed-view", "an operation that failed changed what a handle inside a session shows")
             ok = False
         return ok
